@@ -28,10 +28,10 @@ theorem mem_singles_iff (m : Mol) (x : Path) :
       rw [canon_single]
       exact List.mem_map.mpr ⟨a, hs.atoms a (by simp), rfl⟩
 
-theorem chains_exact_aux (m : Mol) (hcl : Closed m) (lo hi : Int) (h1 : 1 ≤ lo) (h2 : lo ≤ hi) (r : List Path)
-    (h : chains m lo hi = .ok r) (x : Path) :
+theorem chainsP_exact_aux (m : Mol) (hcl : Closed m) (lo hi : Int) (h1 : 1 ≤ lo) (h2 : lo ≤ hi) (r : List Path)
+    (h : chainsP m lo hi = .ok r) (x : Path) :
     x ∈ r ↔ ∃ p, SimplePath m p ∧ lo ≤ (p.length : Int) ∧ (p.length : Int) ≤ hi ∧ x = canon p := by
-  unfold chains at h
+  unfold chainsP at h
   simp only [] at h
   split at h
   · rename_i hlo
@@ -85,10 +85,10 @@ theorem nodup_map_single : ∀ (l : List Nat), l.Nodup → (l.map fun x => [x]).
     have : b = a := by simpa using e
     subst this; exact h.1 hb
 
-theorem chains_nodup_aux (m : Mol) (hid : m.ids.Nodup) (lo hi : Int) (r : List Path) (h : chains m lo hi = .ok r) :
+theorem chainsP_nodup_aux (m : Mol) (hid : m.ids.Nodup) (lo hi : Int) (r : List Path) (h : chainsP m lo hi = .ok r) :
     r.Nodup := by
   have hs : (m.ids.map fun x => [x]).Nodup := nodup_map_single _ hid
-  unfold chains at h
+  unfold chainsP at h
   simp only [] at h
   split at h
   · split at h
